@@ -2,12 +2,13 @@
 # Build the framework from files on disk only (offline): Lean library + native model driver + Go engines.
 set -e
 cd /verif/lean
-lake build RaftVerif driver 2>&1 | tail -3
+lake build RaftVerif RaftGen driver 2>&1 | tail -3
 export GOFLAGS=-mod=mod GOPROXY=off GOSUMDB=off GOTOOLCHAIN=local CGO_ENABLED=0
 mkdir -p /verif/build /verif/evidence /verif/replays
 cp /repo/go.sum /verif/go/go.sum
 cd /verif/go
-for e in nodediff clustersim codecdiff conndiff logdiff repldiff probelive; do
+for e in nodediff clustersim codecdiff conndiff logdiff repldiff probelive livestress scenario; do
   go build -tags verif -o /verif/build/$e ./$e
 done
+go build -o /verif/build/astfacts ./astfacts
 echo setup done
